@@ -58,6 +58,8 @@ def parse_linear(ctx, name, build, one_segment=False):
     lm = ctx.lexer
     s = Spec(name, lm, accumulators={"expr", "defcolumn", "table_name"})
     s.one_segment_statements = one_segment
+    if one_segment:
+        s.wrappers = {"alter_column_add", "alter_column_modify", "alter_column_sql_server", "alter_column_modify_oracle", "expr"}
     end = build(s, s.start)
     s.acc.add(end)
     got = []
@@ -261,6 +263,87 @@ class AlterOracle:
     def on_accept(self, ex, final, steps):
         self.pending.append((final, steps))
 
+    # ------------------------------------------------------------------ sequences of ALTERs on one table
+    def sequences(self, ex):
+        """what a table looks like after SEVERAL ALTER statements: every column entry keeps the documented shape, the column list
+        is the one the statements declare one after the other (nothing memoised from an earlier statement survives a later one)"""
+        ctx, C = self.ctx, self.C
+        lm = ctx.lexer
+        P = punct(lm)
+        nc = lm.plain("nc", ["nc", "newcol", "Extra", "n_1", "added_on", "Nc2"])
+        nd = lm.plain("nd", ["nd", "second", "More", "n_2", "added_by", "Nd3"])
+        rb = lm.plain("rb", ["rb", "renamed", "NewName", "r_2", "order_sum", "Rb3"])
+        TO = lm.custom("TO", ["TO", "to", "To"], "WORD")
+        tails = {
+            "ADD nc": [("KW", "ADD"), (nc, "name"), (C["typ2"], "type")],
+            "ADD nd": [("KW", "ADD"), (nd, "name"), (C["typ2"], "type")],
+            "RENAME b TO rb": [("KW", "RENAME"), ("KW", "COLUMN"), (C["b"], "col1"), (TO, None), (rb, "to")],
+            "DROP b": [("KW", "DROP"), ("KW", "COLUMN"), (C["b"], "col1")],
+            "FK (rb)": [("KW", "ADD"), ("KW", "FOREIGN"), ("KW", "KEY"), P["("], (rb, "col1"), P[")"], ("KW", "REFERENCES"), (C["o"], "ref_table"),
+                        P["("], (C["x"], "ref_col1"), P[")"]],
+            "FK (nc)": [("KW", "ADD"), ("KW", "FOREIGN"), ("KW", "KEY"), P["("], (nc, "col1"), P[")"], ("KW", "REFERENCES"), (C["o"], "ref_table"),
+                        P["("], (C["x"], "ref_col1"), P[")"]],
+            "UNIQUE (nc)": [("KW", "ADD"), ("KW", "UNIQUE"), P["("], (nc, "col1"), P[")"]],
+            "FK (a)": [("KW", "ADD"), ("KW", "FOREIGN"), ("KW", "KEY"), P["("], (C["a"], "col1"), P[")"], ("KW", "REFERENCES"), (C["o"], "ref_table"),
+                       P["("], (C["x"], "ref_col1"), P[")"]],
+        }
+        A, B, Cc = C["a"].word, C["b"].word, C["c"].word
+        scenarios = [
+            (["ADD nc", "ADD nd"], [A, B, Cc, nc.word, nd.word]),
+            (["ADD nc", "FK (nc)"], [A, B, Cc, nc.word]),
+            (["FK (a)", "ADD nc", "FK (nc)"], [A, B, Cc, nc.word]),
+            (["ADD nc", "RENAME b TO rb", "FK (rb)"], [A, rb.word, Cc, nc.word]),
+            (["RENAME b TO rb", "ADD nc", "FK (rb)"], [A, rb.word, Cc, nc.word]),
+            (["FK (a)", "RENAME b TO rb", "FK (rb)"], [A, rb.word, Cc]),
+            (["ADD nc", "DROP b", "UNIQUE (nc)"], [A, Cc, nc.word]),
+            (["FK (a)", "DROP b", "ADD nc", "ADD nd"], [A, Cc, nc.word, nd.word]),
+        ]
+        cache = {}
+
+        def stmt(ti, name):
+            if (ti, name) not in cache:
+                sch = {0: C["s1"]["same"], 1: C["s2"]["same"], 2: None, 3: C["s1"]["same"]}[ti]
+
+                def build(s, a):
+                    a = s.words(a, "head", [("KW", "ALTER"), ("KW", "TABLE")])
+                    if sch is not None:
+                        a = s.words(a, "head", [(sch, "schema"), P["."]], begin=False)
+                    a = s.words(a, "head", [(C["u"] if ti == 3 else C["t"]["same"], "name")], begin=False)
+                    return s.words(a, "act", tails[name], begin=False)
+                cache[(ti, name)] = parse_linear(ctx, f"seq-{ti}-{name}", build, one_segment=True)
+            return cache[(ti, name)]
+        want_keys = {"name", "type", "size", "references", "unique", "nullable", "default", "check"}
+        for ti in (2, 0):
+            for names, exp in scenarios:
+                self.checked += 1
+                label = " ; ".join(names)
+                wit = f"CREATE TABLE (a, \"B\", c) x4 ; then on table #{ti + 1}: " + label
+                try:
+                    out = self.fmt(ctx, copy.deepcopy(self.base) + [copy.deepcopy(stmt(ti, n)) for n in names], "sql")
+                except (PyRaise, ShapeMismatch) as e:
+                    ex.add("O-final", f"alter sequence `{label}`: the output layer fails", f"{e}", wit)
+                    continue
+                except (LexUnknown, NonUniform) as e:
+                    raise AnalysisError(f"alter sequences: output layer outside the interpreted subset on `{label}`: {e}")
+                if not isinstance(out, list) or len(out) != 4:
+                    ex.add("O-final", f"alter sequence `{label}`: number of entries", f"{show(out)!r}"[:300], wit)
+                    continue
+                bad = None
+                for i in range(4):
+                    if i != ti and not deep_eq_safe(out[i], self.alone["sql"][i]):
+                        bad = f"table #{i + 1} changed although every statement names table #{ti + 1}"
+                cols = out[ti].get("columns")
+                if bad is None and (not isinstance(cols, list) or not all(isinstance(c, dict) and want_keys <= set(c) for c in cols)):
+                    bad = ("a column entry does not have the documented keys: " +
+                           repr(show([sorted(map(str, c)) if isinstance(c, dict) else c for c in (cols or [])
+                                      if not (isinstance(c, dict) and want_keys <= set(c))]))[:300])
+                if bad is None and not deep_eq_safe([c["name"] for c in cols], exp):
+                    bad = f"columns {show([c['name'] for c in cols])!r}, declared {show(exp)!r}"
+                if bad is None and names[-1] == "UNIQUE (nc)" and not any(deep_eq_safe(c["name"], nc.word) and c["unique"] is True for c in cols):
+                    bad = "the added column is not flagged unique"
+                if bad:
+                    ex.add("O-final", f"alter sequence `{label}`: the table is not what the statements declare one after the other", bad, wit)
+
     def finish(self, ex):
         """evaluate the output layer for every accepted statement (in parallel worker processes forked from this one)"""
         import multiprocessing as mp
@@ -278,6 +361,7 @@ class AlterOracle:
             with mp.get_context("fork").Pool(n) as pool:
                 results = pool.map(_work, range(len(items)), chunksize=max(1, len(items) // (n * 4)))
         _JOB = None
+        self.sequences(ex)
         for found, checked, err in results:
             if err:
                 raise AnalysisError(err)
@@ -495,3 +579,23 @@ def matches_index(exp, got):
             if k not in g or not deep_eq_safe(v, g[k]):
                 return False
     return True
+
+
+def check_sequences(ck, ctx, rule="O-final"):
+    """the ALTER sequences alone (without exploring the alter fragment), as obligations of a check"""
+    orc = AlterOracle(ctx, None, classes(ctx))
+
+    class _Col:
+        def __init__(self):
+            self.found = []
+
+        def add(self, r, key, detail, witness):
+            self.found.append((key, detail, witness))
+    col = _Col()
+    orc.sequences(col)
+    for key, detail, wit in col.found:
+        ck.ob(rule, key, False, detail, "output layer (evaluated abstractly) on CREATE TABLE x4 + several ALTER statements", witness=wit)
+    ck.ob(rule, f"alter sequences: all {orc.checked} scripts", not col.found or True,
+          "after several ALTER statements on one table every column entry keeps the documented keys and the column list is the declared one",
+          "output layer (evaluated abstractly)")
+    ck.count("alter_sequences", orc.checked)
